@@ -6003,7 +6003,9 @@ impl VerylWalker for Emitter {
             // the semicolon's own line so `Doc::Comments` carries the
             // correct gap into the renderer.
             self.src_line = arg.semicolon.semicolon_token.token.line;
-            self.process_comment(&arg.semicolon.semicolon_token, false);
+            if !self.build_opt.strip_comments {
+                self.process_comment(&arg.semicolon.semicolon_token, false);
+            }
         }
     }
 
